@@ -15,6 +15,7 @@ pub mod faultio;
 pub mod files;
 pub mod format;
 pub mod header;
+pub mod lifetime;
 pub mod placement;
 pub mod schema;
 pub mod tags;
@@ -27,6 +28,7 @@ pub fn lookup(prop: &str) -> Option<CheckFn> {
         "C06" => format::c06,
         "C07" => format::c07,
         "C08" => files::c08,
+        "C09" => lifetime::c09,
         "C10" => header::c10,
         "C11" => header::c11,
         "C12" => placement::c12,
@@ -47,6 +49,7 @@ pub fn default_cases(prop: &str, tier: Tier) -> u32 {
         "C13" | "C14" => (10, 48),
         "C15" => (16, 96),
         "C08" => (6, 24),
+        "C09" => (1, 3),
         "C16" => (24, 160),
         _ => (32, 256),
     };
